@@ -147,8 +147,7 @@ Section ParseState.
     cbn [negb].
     destruct problem as [objs|].
     - destruct (typed_items objs args (dvalues lifted) Hp) as (typed & Hm & Hk & Hf).
-      rewrite Hm. cbn [bind]. rewrite dict_of_nodup by (rewrite Hk; exact Hn).
-      unfold dvalues at 1. rewrite Hf.
+      rewrite Hm. cbn [bind]. rewrite Hf. rewrite dict_of_nodup by (rewrite Hk; exact Hn).
       eexists. split; [reflexivity|]. cbn [pf_name pf_sig pf_rep]. unfold dkeys. rewrite Hk. auto.
     - eexists. split; [reflexivity|]. cbn [pf_name pf_sig pf_rep].
       assert (Hk : map fst (combine args (dvalues lifted)) = args).
